@@ -133,6 +133,13 @@ func init() {
 			return
 		}
 		body := add.Body.List
+		// `if len < cap { return }; <halving pass>` (a guard clause in a function without results) reads as
+		// `if len >= cap { <halving pass> }`
+		if len(body) > 3 {
+			if g, ok := body[2].(*ast.IfStmt); ok && g.Init == nil && g.Else == nil && len(g.Body.List) == 1 && x.Src(g.Body.List[0]) == "return" {
+				body = []ast.Stmt{body[0], body[1], &ast.IfStmt{If: g.If, Cond: negate(g.Cond), Body: &ast.BlockStmt{Lbrace: g.Body.Lbrace, List: body[3:], Rbrace: add.Body.Rbrace}}}
+			}
+		}
 		if len(body) != 3 {
 			x.fail("Add: expected 3 top-level statements (coin test, insert, halving), found %d", len(body))
 			return
@@ -275,9 +282,13 @@ func init() {
 		if x.Src(reset.Body) != "{ c.buf.Clear(); c.p = math.MaxUint64 }" && x.Src(reset.Body) != "{ c.buf.Clear() c.p = math.MaxUint64 }" {
 			x.fail("Reset is not `c.buf.Clear(); c.p = math.MaxUint64`: %s", x.Src(reset.Body))
 		}
-		p2k := DefineOf(count, "p2k")
-		if p2k == nil || x.Src(p2k) != "uint64(1) << uint64(bits.LeadingZeros64(c.p))" {
-			x.fail("Count: p2k is not `uint64(1) << uint64(bits.LeadingZeros64(c.p))`: %s", x.Src(p2k))
+		// the single-use local `p2k` may be spelled or inlined
+		p2kSrc := "(uint64(1) << uint64(bits.LeadingZeros64(c.p)))"
+		if p2k := DefineOf(count, "p2k"); p2k != nil {
+			if x.Src(p2k) != "uint64(1) << uint64(bits.LeadingZeros64(c.p))" {
+				x.fail("Count: p2k is not `uint64(1) << uint64(bits.LeadingZeros64(c.p))`: %s", x.Src(p2k))
+			}
+			p2kSrc = "p2k"
 		}
 		var ret *ast.ReturnStmt
 		ast.Inspect(count, func(n ast.Node) bool {
@@ -286,8 +297,8 @@ func init() {
 			}
 			return true
 		})
-		if ret == nil || len(ret.Results) != 1 || x.Src(ret.Results[0]) != "uint64(c.buf.Len()) * p2k" {
-			x.fail("Count does not return `uint64(c.buf.Len()) * p2k`")
+		if ret == nil || len(ret.Results) != 1 || x.Src(ret.Results[0]) != "uint64(c.buf.Len()) * "+p2kSrc {
+			x.fail("Count does not return `uint64(c.buf.Len()) * (uint64(1) << uint64(bits.LeadingZeros64(c.p)))`: %s", x.Src(ret))
 		}
 	}})
 }
